@@ -1,15 +1,15 @@
 SPECIFICATION Spec
 CONSTANTS
   Channels = {0, 1}
-  Mode = "perm"
-  NTok <- MC_PermQ_N
-  TokAt <- MC_PermQ_At
-  PolSeq <- MC_Pol6x2
+  Mode = "set"
+  NTok <- MC_SetC_N
+  TokAt <- MC_SetC_At
+  PolSeq <- MC_Pol11x2
   RegisterFirst = FALSE
-  MinN = 0
-  MaxN = 3
+  MinN = 5
+  MaxN = 7
   Export = TRUE
-  CheckRekeyDirect = TRUE
+  CheckRekeyDirect = FALSE
   None = None
 INVARIANTS Inv_TypeOK Inv_Pending Inv_Dup Inv_Oracle Inv_OracleNow Inv_Partition Inv_Rekey Inv_NoRepeatAllOk Inv_Export
 PROPERTIES Prop_Rejected Prop_Accepted
